@@ -1,6 +1,4 @@
-from collections import defaultdict
 from typing import (
-    Callable,
     Dict,
     Generic,
     List,
@@ -10,7 +8,6 @@ from typing import (
 )
 import bisect
 from dataclasses import dataclass, field
-import copy
 
 import numpy as np
 
@@ -18,7 +15,7 @@ from synth.syntax.grammars.tagged_det_grammar import DerivableProgram
 from synth.syntax.grammars.tagged_u_grammar import ProbUGrammar
 from synth.syntax.grammars.u_cfg import UCFG
 from synth.syntax.program import Constant, Primitive, Program, Variable
-from synth.syntax.type_system import Type, UnknownType
+from synth.syntax.type_system import Type
 
 U = TypeVar("U")
 
@@ -236,290 +233,28 @@ def __split_into_nodes__(
     return [g for g, _ in prob_groups], ratio  # type: ignore
 
 
-def __common_prefix__(
-    a: List[Tuple[Type, U]], b: List[Tuple[Type, U]]
-) -> List[Tuple[Type, U]]:
-    if a == b:
-        return a
-    candidates = []
-    if len(a) > 1:
-        candidates.append(__common_prefix__(a[1:], b))
-        if len(b) >= 1 and a[0] == b[0]:
-            candidates.append([a[0]] + __common_prefix__(a[1:], b[1:]))
-    if len(b) > 1:
-        candidates.append(__common_prefix__(a, b[1:]))
-    # Take longest common prefix
-    lentghs = [len(x) for x in candidates]
-    if len(lentghs) == 0:
-        return []
-    if max(lentghs) == lentghs[0]:
-        return candidates[0]
-    return candidates[1]
-
-
-def __create_path__(
-    rules: Dict[
-        Tuple[Type, Tuple[U, int]],
-        Dict[DerivableProgram, List[List[Tuple[Type, Tuple[U, int]]]]],
-    ],
-    probabilities: Dict[
-        Tuple[Type, Tuple[U, int]],
-        Dict[DerivableProgram, Dict[List[Tuple[Type, Tuple[U, int]]], float]],
-    ],
-    original_pcfg: ProbUGrammar[U, List[Tuple[Type, U]], List[Tuple[Type, U]]],
-    Slist: List[Tuple[Type, U]],
-    Plist: List[Program],
-    Vlist: List[List[Tuple[Type, U]]],
-    map_state: Callable[[Tuple[Type, U]], Tuple[Type, Tuple[U, int]]],
-    original_start: Tuple[Type, U],
-    to_normalise: List[
-        Tuple[List[Tuple[Type, U]], Tuple[Type, U], Program, List[Tuple[Type, U]]]
-    ],
-) -> List[Tuple[Type, U]]:
-    # print("\tCREATING A PATH:", Plist)
-    info = original_pcfg.start_information()
-    for i, (S, P, v) in enumerate(zip(Slist, Plist, Vlist)):
-        if i == 0:
-            S = original_start
-        # print(f"\t\tpath:{S} -> {P} : {v}")
-        to_normalise.append((info, S, P, v))
-        if i > 0:
-            info.pop(0)
-        derivation = original_pcfg.derive_specific(info, S, P, v)  # type: ignore
-        assert derivation
-        next_derivation, current = derivation
-        # Update derivations
-        assert isinstance(P, (Primitive, Variable, Constant))
-        # print(f"\t\tpath current:{current} next:{next_derivation}")
-        Sp = map_state(S)
-        mapped_v = [map_state(x) for x in v]
-        if Sp not in rules:
-            rules[Sp] = {P: []}
-            probabilities[Sp] = {P: {}}
-        if P not in rules[Sp]:
-            rules[Sp][P] = []
-            probabilities[Sp][P] = {}
-        rules[Sp][P].append(mapped_v)
-        probabilities[Sp][P][tuple(mapped_v)] = original_pcfg.probabilities[S][P][  # type: ignore
-            tuple(v)  # type: ignore
-        ]
-        info = [current] + next_derivation
-    return info
-
-
-def __create_starts__(
-    min_prefix: List[Tuple[Type, U]],
-    map_state: Callable[[Tuple[Type, U]], Tuple[Type, Tuple[U, int]]],
-    rules: Dict[
-        Tuple[Type, Tuple[U, int]],
-        Dict[DerivableProgram, List[List[Tuple[Type, Tuple[U, int]]]]],
-    ],
-    probabilities: Dict[
-        Tuple[Type, Tuple[U, int]],
-        Dict[DerivableProgram, Dict[List[Tuple[Type, Tuple[U, int]]], float]],
-    ],
-    to_normalise: List[
-        Tuple[List[Tuple[Type, U]], Tuple[Type, U], Program, List[Tuple[Type, U]]]
-    ],
-    group: List[_Node[U]],
-    original_pcfg: ProbUGrammar[U, List[Tuple[Type, U]], List[Tuple[Type, U]]],
-) -> List[Tuple[Type, U]]:
-    """
-    For each node in the group, create the starting path from the start non terminal to each node
-    """
-    # Extract the start symbol
-    original_start = min_prefix.pop()
-
-    # We also need to mark all contexts that should be filled
-    to_fill: List[Tuple[Type, U]] = []
-    if len(min_prefix) > 0:
-        Slist = group[0].derivation_history[: len(min_prefix) + 1]
-        Plist = group[0].program[: len(min_prefix) + 1]
-        Vlist = group[0].choices[: len(min_prefix) + 1]
-        rem = __create_path__(
-            rules,
-            probabilities,
-            original_pcfg,
-            Slist,
-            Plist,
-            Vlist,
-            map_state,
-            Slist[0],
-            to_normalise,
-        )
-        if rem and not isinstance(rem[0][0], UnknownType):
-            to_fill += rem
-        original_start = Slist[-1]
-
-    # Now we need to make a path from the common prefix to each node's prefix
-
-    for node in group:
-        program, prefix = (
-            node.program,
-            node.derivation_history,
-        )
-        # Create rules to follow the path
-        i = prefix.index(original_start)
-        if len(min_prefix) > 0:
-            i += 1
-        ctx_path = prefix[i:]
-        program_path = program[i:]
-        v_path = node.choices[i:]
-        # print(prefix, "START:", original_start)
-        if len(ctx_path) > 0:
-            ctx_path[0] = original_start
-            rem = __create_path__(
-                rules,
-                probabilities,
-                original_pcfg,
-                ctx_path,
-                program_path,
-                v_path,
-                map_state,
-                original_start,
-                to_normalise,
-            )
-            if rem and not isinstance(rem[0][0], UnknownType):
-                to_fill += rem
-    return to_fill
-
-
-def __fill_grammar__(
-    map_state: Callable[[Tuple[Type, U]], Tuple[Type, Tuple[U, int]]],
-    rules: Dict[
-        Tuple[Type, Tuple[U, int]],
-        Dict[DerivableProgram, List[List[Tuple[Type, Tuple[U, int]]]]],
-    ],
-    probabilities: Dict[
-        Tuple[Type, Tuple[U, int]],
-        Dict[DerivableProgram, Dict[List[Tuple[Type, Tuple[U, int]]], float]],
-    ],
-    original_pcfg: ProbUGrammar[U, List[Tuple[Type, U]], List[Tuple[Type, U]]],
-    to_fill: List[Tuple[Type, U]],
-) -> Dict[
-    Tuple[Type, Tuple[U, int]],
-    Dict[DerivableProgram, Dict[Tuple[Tuple[Type, Tuple[U, int]], ...], float]],
-]:
-    """
-    Fill-in the grammar starting from the initial to_fill contexts.
-    """
-    computed: Dict[
-        Tuple[Type, Tuple[U, int]],
-        Dict[DerivableProgram, Dict[Tuple[Tuple[Type, Tuple[U, int]], ...], float]],
-    ] = defaultdict(lambda: defaultdict(dict))
-    # Build rules from to_fill
-    while to_fill:
-        S = to_fill.pop()
-        Sp = map_state(S)
-        if Sp not in rules:
-            rules[Sp] = {
-                P: [[map_state(s) for s in v] for v in vList]
-                for P, vList in original_pcfg.rules[S].items()
-            }
-            for P in original_pcfg.rules[S]:
-                for state_list in original_pcfg.rules[S][P]:
-                    for state in state_list:
-                        to_fill.append(state)
-            probabilities[Sp] = {
-                P: {tuple(map_state(s) for s in k): p for k, p in dicoV.items()}  # type: ignore
-                for P, dicoV in original_pcfg.probabilities[S].items()
-            }
-            computed[Sp] = probabilities[Sp]  # type: ignore
-    return computed
-
-
-def __fix_probabilities__(
-    map_state: Callable[[Tuple[Type, U]], Tuple[Type, Tuple[U, int]]],
-    probabilities: Dict[
-        Tuple[Type, Tuple[U, int]],
-        Dict[DerivableProgram, Dict[List[Tuple[Type, Tuple[U, int]]], float]],
-    ],
-    original_pcfg: ProbUGrammar[U, List[Tuple[Type, U]], List[Tuple[Type, U]]],
-    computed: Dict[
-        Tuple[Type, Tuple[U, int]],
-        Dict[DerivableProgram, Dict[Tuple[Tuple[Type, Tuple[U, int]], ...], float]],
-    ],
-    to_normalise: List[
-        Tuple[List[Tuple[Type, U]], Tuple[Type, U], Program, List[Tuple[Type, U]]]
-    ],
-) -> None:
-    while to_normalise:
-        for el in list(to_normalise):
-            info, S, cP, v = el
-            assert isinstance(cP, (Primitive, Variable, Constant))
-            Sp = map_state(S)
-            if Sp not in probabilities:
-                probabilities[Sp] = {}
-            if cP not in probabilities[Sp]:
-                probabilities[Sp][cP] = {}
-            # print("\t", Sp, "->", P)
-            derivation = original_pcfg.derive_specific(info, S, cP, v)
-            assert derivation
-            _, current = derivation
-            # Compute the updated probabilities
-            new_prob = 0.0
-            old_w = original_pcfg.probabilities[S][cP][tuple(v)]  # type: ignore
-            if isinstance(current[0], UnknownType):
-                new_prob = 1
-            else:
-                missed = False
-                currentP = map_state(current)
-                count = 0
-                for Pp, v_dict in computed[currentP].items():
-                    if Pp not in computed[currentP]:
-                        missed = True
-                        break
-                    for cv, p in v_dict.items():
-                        if cv not in v_dict:
-                            missed = True
-                            break
-                        new_prob += p
-                        count += 1
-                if missed or count == 0:
-                    continue
-                # print("for", S, "=>", P, "@", v)
-                # print("\tprob:", new_prob, "count:", count, "missed:", missed)
-            # Update according to Equation (1)
-            tmapped_v = tuple(map_state(x) for x in v)
-            # print("\t\t", Sp, "->", P)
-            probabilities[Sp][cP][tmapped_v] = old_w * new_prob  # type: ignore
-            computed[Sp][cP][tmapped_v] = old_w * new_prob
-            to_normalise.remove(el)
-
-
 def __pcfg_from__(
     original_pcfg: ProbUGrammar[U, List[Tuple[Type, U]], List[Tuple[Type, U]]],
     group: List[_Node[U]],
 ) -> ProbUGrammar[
     Tuple[U, int], List[Tuple[Type, Tuple[U, int]]], List[Tuple[Type, Tuple[U, int]]]
 ]:
-    # print()
-    # print("=" * 60)
-    # print("NODE")
-    # for node in group:
-    #     print("\t", node.program)
-    # Find the common prefix to all
-    min_prefix = copy.deepcopy(group[0].derivation_history)
-    for node in group[1:]:
-        min_prefix = __common_prefix__(min_prefix, node.derivation_history)
-    # print("MIN PREFIX:", min_prefix)
+    """
+    Build the grammar of the programs whose derivation starts like one of the nodes of the group.
 
-    # Function to map states automatically
+    Every non-terminal derived along the path of a node gets a fresh copy (S, n) with n > 0
+    that has only the rule chosen by the node.
+    The non-terminals that are pending at the end of the path are derived freely,
+    the free copy of S is (S, 0).
+    """
     rule_nos = [0]
-    mapping: Dict[Tuple[Type, U], Tuple[Type, Tuple[U, int]]] = {}
 
-    def map_state(s: Tuple[Type, U]) -> Tuple[Type, Tuple[U, int]]:
-        o = mapping.get(s, None)
-        if o is not None:
-            # print("\t", s, "=>", o)
-            return o
-        # print(s, "does not exist in mapping:", set(mapping.keys()))
-        mapping[s] = (s[0], (s[1], rule_nos[0]))
+    def fresh(s: Tuple[Type, U]) -> Tuple[Type, Tuple[U, int]]:
         rule_nos[0] += 1
-        return mapping[s]
+        return (s[0], (s[1], rule_nos[0]))
 
-    # New start states
-    starts = {map_state(s) for s in original_pcfg.grammar.starts}
+    def free(s: Tuple[Type, U]) -> Tuple[Type, Tuple[U, int]]:
+        return (s[0], (s[1], 0))
 
     rules: Dict[
         Tuple[Type, Tuple[U, int]],
@@ -527,59 +262,63 @@ def __pcfg_from__(
     ] = {}
     probabilities: Dict[
         Tuple[Type, Tuple[U, int]],
-        Dict[DerivableProgram, Dict[List[Tuple[Type, Tuple[U, int]]], float]],
+        Dict[DerivableProgram, Dict[Tuple[Tuple[Type, Tuple[U, int]], ...], float]],
     ] = {}
     start_probs: Dict[Tuple[Type, Tuple[U, int]], float] = {}
-    # List of non-terminals + info we need to normalise weirdly
-    to_normalise: List[
-        Tuple[List[Tuple[Type, U]], Tuple[Type, U], Program, List[Tuple[Type, U]]]
-    ] = []
-    # Our min_prefix may be something like (int, 1, (+, 1))
-    # which means we already chose +
-    # But it is not in the PCFG
-    # Thus we need to add it
-    # In the general case we may as well have + -> + -> + as prefix this whole prefix needs to be added
-    to_fill = __create_starts__(
-        min_prefix, map_state, rules, probabilities, to_normalise, group, original_pcfg
-    )
-    # print("BEFORE FILLING")
-    # print("to_fill:", to_fill)
-    # print(UCFG(starts, rules, clean=False))
-    computed = __fill_grammar__(map_state, rules, probabilities, original_pcfg, to_fill)
-    # Now we can already have the new grammar
-    new_grammar = UCFG(starts, rules, clean=False)
-    # print("FINAL GRAMMAR BEFORE CLEANING")
-    # print(new_grammar)
-    new_grammar.clean()
-    # At this point we have all the needed rules
-    # However, the probabilites are incorrect
-    __fix_probabilities__(
-        map_state, probabilities, original_pcfg, computed, to_normalise
-    )
-    for start in original_pcfg.start_tags:
-        Sp = map_state(start)
-        if Sp in new_grammar.starts:
-            start_probs[Sp] = original_pcfg.start_tags[start]
-    # The updated probabilities may not sum to 1 so we need to normalise them
-    # But let ProbDetGrammar do it with clean=True
+    # The copy of each start non-terminal, shared by the nodes of the group
+    new_starts: Dict[Tuple[Type, U], Tuple[Type, Tuple[U, int]]] = {}
+    to_fill: List[Tuple[Type, U]] = []
 
-    # Make probabilities coherent with rules
-    probabilities = {
-        S: {
-            P: {v: p for v, p in dicoV.items() if list(v) in new_grammar.rules[S][P]}
-            for P, dicoV in dicoP.items()
-            if P in new_grammar.rules[S]
+    def copy_rules(S: Tuple[Type, U], Sp: Tuple[Type, Tuple[U, int]]) -> None:
+        rules[Sp] = {
+            P: [[free(s) for s in v] for v in vList]
+            for P, vList in original_pcfg.rules[S].items()
         }
-        for S, dicoP in probabilities.items()
-        if S in new_grammar.rules
-    }
-    # Now normalise as said earlier
-    grammar = ProbUGrammar(new_grammar, probabilities, start_probs)
+        probabilities[Sp] = {
+            P: {tuple(free(s) for s in v): p for v, p in dicoV.items()}
+            for P, dicoV in original_pcfg.probabilities[S].items()
+        }
+        for vList in original_pcfg.rules[S].values():
+            for v in vList:
+                to_fill.extend(v)
+
+    for node in group:
+        history = node.derivation_history
+        start = history[0] if history else node.for_next_derivation[1]
+        if start not in new_starts:
+            new_starts[start] = fresh(start)
+            start_probs[new_starts[start]] = 0
+        start_probs[new_starts[start]] += node.probability
+        # The pending non-terminals with their copies
+        pending = [(start, new_starts[start])]
+        for i, (S, P, v) in enumerate(zip(history, node.program, node.choices)):
+            assert isinstance(P, (Primitive, Variable, Constant))
+            current, Sp = pending.pop(0)
+            assert current == S
+            mapped_v = [fresh(s) for s in v]
+            if Sp not in rules:
+                rules[Sp] = {}
+                probabilities[Sp] = {}
+            if P not in rules[Sp]:
+                rules[Sp][P] = []
+                probabilities[Sp][P] = {}
+            rules[Sp][P].append(mapped_v)
+            # The whole weight of the path is on its first rule
+            probabilities[Sp][P][tuple(mapped_v)] = node.probability if i == 0 else 1.0
+            pending = list(zip(v, mapped_v)) + pending
+        # What is left is derived as in the original grammar
+        for S, Sp in pending:
+            copy_rules(S, Sp)
+    while to_fill:
+        S = to_fill.pop()
+        if free(S) not in rules:
+            copy_rules(S, free(S))
+
+    grammar = ProbUGrammar(
+        UCFG(set(start_probs.keys()), rules, clean=False), probabilities, start_probs
+    )
+    # The weights of the paths and of the starts do not sum to 1
     grammar.normalise()
-    # print(grammar)
-    # print()
-    # print("=" * 80)
-    # print()
     return grammar
 
 
